@@ -23,7 +23,7 @@ INFO = dict(
     trusted=['the fit is deterministic for equal inputs (compared at 1e-6 relative)'],
     assumptions=['fit_method="manual" is outside the alphabet (no defined fresh result without parameters)'])
 
-READS = ['bins', 'bin_count', 'experimental', 'parameters', 'transform']
+READS = ['bins', 'bin_count', 'experimental', 'parameters', 'transform', 'n_lags']
 CACHE_ATTRS = ['_bins', '_groups', '_bin_count', '_diff', 'cof']
 SETTER_TOKEN = dict(values='set_values', n_lags='n_lags.setter', maxlag='maxlag.setter', bin_func='set_bin_func',
                     bins='bins.setter', estimator='set_estimator', model='set_model', use_nugget='use_nugget.setter',
@@ -142,6 +142,8 @@ class World:
 
 def read(V, what, grid):
     with quiet():
+        if what == 'n_lags':
+            return ('n_lags', int(V.n_lags))       # read on its own, *before* any read of the edges
         if what == 'bins':
             return ('bins', np.asarray(V.bins, float).tolist(), int(V.n_lags))
         if what == 'bin_count':
@@ -158,7 +160,7 @@ def read(V, what, grid):
 def equal_obs(a, b):
     if a[0] == 'bins':
         return all_close(a[1], b[1], rel=1e-12) and a[2] == b[2]
-    if a[0] == 'bin_count':
+    if a[0] in ('bin_count', 'n_lags'):
         return a[1] == b[1]
     if a[0] == 'experimental':
         return all_close(a[1], b[1], rel=1e-9)
@@ -200,6 +202,15 @@ def classify(history, cfg0, what):
         if n == 'dist_function' and seen_bins:
             return 'bins-then-dist_function'
     return None
+
+
+def nlags_read_derives(V):
+    """reading n_lags has to derive the number of classes from the lag edges (nothing stored, or a rule-based binning
+    whose edges were dropped)"""
+    name = getattr(V, '_bin_func_name', None)
+    derived = isinstance(name, str) and name.lower() not in ('even', 'uniform', 'kmeans', 'ward', 'stable_entropy',
+                                                             'custom_func', 'custom_bin_edges')
+    return getattr(V, '_n_lags', 0) is None or (derived and getattr(V, '_bins', 0) is None)
 
 
 @guarded
@@ -258,7 +269,7 @@ def run_history(ctx, world, cfg0, history):
     for kind, arg in history:
         expanded.append((kind, arg))
     for kind, arg in expanded:
-        if kind == 's' and arg == ('n_lags', 'current') and getattr(V, '_n_lags', 0) is None:
+        if kind == 's' and arg == ('n_lags', 'current') and nlags_read_derives(V):
             # reading the current number of classes derives it from the lag edges: that is a read of `bins`
             executed.append(('r', 'bins'))
             res = compare('bins')
@@ -285,15 +296,25 @@ def run_history(ctx, world, cfg0, history):
             toks.append('s:' + SETTER_TOKEN[arg[0]] + ('!' if alt else ''))
         else:
             executed.append(('r', arg))
+            before_pat = pattern(V, directional)
             res = compare(arg)
             if res is False:
                 return
             if res is None:
                 return
-            toks.append('r:' + arg)
+            if arg == 'n_lags':
+                # the number of classes is a stored number, or - while a rule-based binning has not derived it yet -
+                # a read of the lag edges; for the cache machine it is the latter or nothing
+                if pattern(V, directional) == before_pat:
+                    continue
+                toks.append('r:bins')
+            else:
+                toks.append('r:' + arg)
         pats.append(pattern(V, directional))
     # every observable at the end
     for what in READS:
+        if what == 'n_lags':
+            continue
         executed.append(('r', what))
         res = compare(what)
         if res is not True:
